@@ -6,3 +6,5 @@ feat=${1:-all}
 CARGO_TARGET_DIR=/verif/.build/target/wtc CARGO_NET_OFFLINE=true cargo kani -Z unstable-options --no-codegen --no-default-features --features $feat 2>&1 | grep -E "^error" -A 16 | head -${2:-80}
 # native build of everything (replay tests compile natively; catches e.g. format-string braces)
 CARGO_TARGET_DIR=/verif/.build/target/wreplay CARGO_NET_OFFLINE=true cargo kani playback -Z concrete-playback --only-codegen 2>&1 | grep -E "^error" -A 12 | head -40
+# stable-toolchain native build (this is what bin/setup.py's self-test compiles; Kani's nightly accepts more)
+CARGO_TARGET_DIR=/verif/.build/target/wnative CARGO_NET_OFFLINE=true cargo test --offline --no-default-features --no-run --test spec_vectors 2>&1 | grep -E "^error" -A 12 | head -40
